@@ -6,10 +6,11 @@ CONSTANTS
   PreConsts <- Pre2
   MaxCalls = 2
   MaxConn = 1
-  Kinds = {"add", "sub", "mul", "div", "connect", "azero"}
+  Kinds = {"add", "sub", "mul", "div", "connect", "azero", "abool"}
   FixD1 = TRUE
   FixD2 = TRUE
   FixFuse = TRUE
+  NoFold = FALSE
 INVARIANTS
   TypeOK
   EmitReplay
